@@ -1,0 +1,34 @@
+//go:build verif
+
+package hsmsss
+
+import (
+	"net"
+	"time"
+
+	"github.com/arloliu/go-secs/v2/hsms"
+)
+
+// This file exists only under the `verif` build tag. It exports a seam for the external
+// verification harness (/verif, property C04): it adds code only and changes no production
+// behaviour.
+
+// verifReaderRT is the runtime readFrame consults: only Timers() (the live T8) is ever called.
+type verifReaderRT struct {
+	hsms.TransportRuntime
+	t8 time.Duration
+}
+
+func (r verifReaderRT) Timers() hsms.TimerConfig { return hsms.TimerConfig{T8: r.t8} }
+
+// VerifFrameReader returns the REAL readFrame of a transport built by newTransport whose T8 is
+// t8, whose read-deadline clock is now and whose frame allocator is alloc (the two existing test
+// seams). Each call of the returned function reads one frame from conn, exactly as recvLoop does.
+func VerifFrameReader(t8 time.Duration, now func() time.Time, alloc func(n int) []byte) func(conn net.Conn) ([]byte, error) {
+	t := newTransport(Config{})
+	t.now = now
+	t.allocFrame = alloc
+	t.rt = verifReaderRT{t8: t8}
+
+	return t.readFrame
+}
